@@ -149,6 +149,31 @@ impl Runner for TalkRunner {
                     stats.bump("t.request-id-used-again-by-the-same-peer");
                 }
                 let req = Request { id: RequestId(ridb.clone()), body: RequestBody::Talk { protocol: p.clone(), request: q.clone() } };
+                // the request reaches the service the way it does in a running node: as what the message codec
+                // makes of the peer's bytes (the id the answers must carry is the one on the wire, `ridb`)
+                let req = {
+                    use discv5::verif::rpc as vr;
+                    let wire = vr::message_encode(vr::Message::Request(vr::Request {
+                        id: vr::RequestId(ridb.clone()),
+                        body: vr::RequestBody::Talk { protocol: p.clone(), request: q.clone() },
+                    }));
+                    match vr::message_decode(&wire) {
+                        Ok(vr::Message::Request(r)) => match r.body {
+                            vr::RequestBody::Talk { protocol, request } => Request { id: RequestId(r.id.0), body: RequestBody::Talk { protocol, request } },
+                            _ => {
+                                out.push("!MON C20 talk-request-decoded-as-something-else".into());
+                                req
+                            }
+                        },
+                        _ => {
+                            out.push("!MON C20 well-formed-talk-request-refused-by-the-codec".into());
+                            req
+                        }
+                    }
+                };
+                if req.id.0 != ridb {
+                    stats.bump("t.codec-changed-the-request-id");
+                }
                 let before = self.r.talks.len();
                 // the application is not reading its events and the stream is full: the service cannot
                 // hand the request over, the object is dropped at once - one empty TALKRESP, no more
@@ -379,7 +404,13 @@ pub fn gen_case(rng: &mut Rng, tier: &str, _profile: &str, stats: &mut Stats) ->
                 format!("10.0.{}.{}/{}", b2, b3, port)
             };
             let n = rng.range(1, 8) as usize;
-            let rid = hex::encode(rng.bytes(n));
+            // (one id in five is a fixed-width counter: leading zero bytes)
+            let rid = if rng.chance(1, 5) && n >= 2 {
+                let mut b = vec![0u8; n];
+                b[n - 1] = rng.range(1, 255) as u8;
+                if n >= 3 && rng.chance(1, 2) { b[n - 2] = rng.below(256) as u8; }
+                hex::encode(b)
+            } else { hex::encode(rng.bytes(n)) };
             let n = rng.below(4) as usize;
             let proto = hx(&rng.bytes(n));
             let n = rng.below(12) as usize;
